@@ -432,6 +432,12 @@ func cmdCheck(args []string) int {
 		os.MkdirAll(filepath.Join(*verif, "obligations"), 0o755)
 		os.WriteFile(filepath.Join(*verif, "obligations", *prop+".lock"), append(b, '\n'), 0o644)
 		fmt.Printf("lock file written: %d claimed, %d unclaimed\n", len(nl.Obligations), len(nl.Unclaimed))
+		for _, n := range nl.Unclaimed {
+			if strings.Contains(n, "/spec-error/") {
+				// a clause that does not type-check is a defect of the contract file, not an open proof
+				fmt.Printf("SPEC-ERROR (contract file): %s\n", n)
+			}
+		}
 	}
 
 	generated := map[string]bool{}
